@@ -10,7 +10,8 @@ identities; MKL's one-based index discipline.  Not decided: numerical agreement 
 import ast
 
 from sa import AnalysisError
-from sa.astutil import dotted, src, stmt_text, params, arity, find_stmts, calls_in, method_name, walk_no_nested, const
+from sa.boolnf import equivalent
+from sa.astutil import dotted, src, stmt_text, params, arity, find_stmts, calls_in, method_name, walk_no_nested, const, deep_resolved, if_branches
 from sa.guards import facts_at, holds_compare, strip_all, as_compare, decompose
 
 
@@ -617,10 +618,23 @@ def check_base_operators(model, rep):
                f'{c.name}.rowsupp compares `{src(operand_red[0])[:50]}` with tol: the base class marks a row when one ENTRY exceeds tol; a row of several small entries whose sum exceeds tol is now marked as supported', statement='rowsupp-sibling')
     # submatrix cache: key is (rows, cols) compared elementwise, both stored with the cached object
     sm = base.members['submatrix'].func
-    stores = {src(t) for s in find_stmts(sm.body, lambda s: isinstance(s, ast.Assign)) for t in s.targets}
-    tests = [s for s in find_stmts(sm.body, lambda s: isinstance(s, ast.If)) if '_cached_submatrix' in src(s.test)]
-    ok = {'self._cached_rows', 'self._cached_cols', 'self._cached_submatrix'} <= stores and len(tests) == 1 and \
-        '(rows != self._cached_rows).any()' in src(tests[0].test) and '(cols != self._cached_cols).any()' in src(tests[0].test) and isinstance(tests[0].test, ast.BoolOp) and isinstance(tests[0].test.op, ast.Or)
+    # the test may be spelled as a miss or as its negation (a named validity flag, De Morgan): decided by propositional equivalence, the stores
+    # of (rows, cols, sub-matrix) must sit in the branch taken on a miss
+    MISS = 'self._cached_submatrix is None or (rows != self._cached_rows).any() or (cols != self._cached_cols).any()'
+    ok = False
+    for i_ in find_stmts(sm.body, lambda s: isinstance(s, ast.If)):
+        t_ = deep_resolved(sm.node, i_.test)
+        if '_cached_submatrix' not in src(t_):
+            continue
+        yes, no = if_branches(sm.body, i_)
+        if equivalent(t_, MISS):
+            miss = yes
+        elif equivalent(t_, f'not ({MISS})'):
+            miss = no
+        else:
+            continue
+        stores = {src(t) for x in miss for s_ in ast.walk(x) if isinstance(s_, ast.Assign) for t in s_.targets}
+        ok = {'self._cached_rows', 'self._cached_cols', 'self._cached_submatrix'} <= stores
     rep.ob('R15.6', sm.key, sm.where(), ok, 'the sub-matrix cache is keyed on both rows and cols' if ok else
            'the sub-matrix cache test/store no longer covers both the row and the column selection: a stale sub-matrix would be served', statement='submatrix-cache')
     gp = base.members['getprecon'].func
